@@ -232,7 +232,7 @@ theorem close_only_when_lost_v (ops : List Op) (op : Op) (c : Nat) : CloseOnlyWh
     · exact Or.inl rfl
   case upEvents =>
     intro c0 m l _ _ _ _ hl
-    rcases hl with ⟨_, rfl⟩ | ⟨x, _, rfl⟩ | ⟨x, t, e, _, rfl⟩ | ⟨n, _, rfl⟩ | ⟨n, _, rfl⟩ <;> simp [ev2]
+    rcases hl with ⟨_, rfl⟩ | ⟨x, _, rfl⟩ | ⟨x, t, e, _, rfl⟩ | ⟨n, _, rfl⟩ | ⟨n, _, rfl⟩ | ⟨x, _, rfl⟩ <;> simp [ev2]
   case sendSome =>
     intro d x c0 _ _
     simp only [sendRaw]
@@ -485,5 +485,13 @@ the overlapping history of D3 — connection-level ConnectionUp is never raised,
 example : let l : Lst := { up := some .disc, down := true, stopIfDisc := true }
     (outs (runL Cfg.repaired l d3Ops).2).count (upEv true 1) = 1 ∧ (outs (runL Cfg.repaired l d3Ops).2).count (upEv false 1) = 0 ∧
     (outs (runL Cfg.repaired l d3Ops).2).count (downEv false 1) = 1 ∧ (runL Cfg.repaired l d3Ops).1.reg (some 5) = none := by decide
+
+/-- the error equivalent of the barrier reply is accepted for exactly the barrier's xid: an unrelated BAD_REQUEST/BAD_TYPE error with
+xid 0 (an ordinary value), with the features request's xid (2), or with barrier xid ± 1, arriving between the features reply and the
+barrier answer, announces nobody; the one carrying 6 does -/
+example : ∀ x ∈ [0, 2, 5, 7, 4294967295],
+    (outs (run Cfg.repaired [.connect, .msg 0 .hello, .msg 0 (.featuresReply 5), .msg 0 (.error x 1 1)]).2).count (upEv true 0) = 0 := by decide
+example : (outs (run Cfg.repaired [.connect, .msg 0 .hello, .msg 0 (.featuresReply 5), .msg 0 (.echoReply 0), .msg 0 (.error 6 1 1)]).2).count
+    (upEv true 0) = 1 := by decide
 
 end Pox.C09
